@@ -82,7 +82,7 @@ def build_message(spec: dict, idx: int) -> bytes:
     if k == 'upd':
         return R.message(R.UPDATE, update_body(spec['n'], idx))
     if k == 'notif':
-        return R.notification(6, 2, b'bye')
+        return R.notification(6, 2, bytes([idx % 251]) * spec['n'] if spec.get('n') else b'bye')
     if k == 'bad':
         f = spec['f']
         if f == 'marker':
@@ -132,7 +132,8 @@ def generate(rng, tier: str, index: int) -> dict:
     if rng.chance(0.55):
         f = rng.choice(['marker', 'short', 'long', 'type-len', 'unknown-type', 'notif'])
         if f == 'notif':
-            msgs.append({'k': 'notif'})
+            # RFC 8654: once negotiated the 65535 limit holds for every type but OPEN and KEEPALIVE, a NOTIFICATION's data included
+            msgs.append({'k': 'notif', 'n': rng.choice([4097, 4200, 30000, 65535]) - 21} if ext and rng.chance(0.5) else {'k': 'notif'})
         elif f == 'marker':
             # the damaged marker comes first whatever the Type octet says (RFC 4271 6.1), a NOTIFICATION's included
             msgs.append({'k': 'bad', 'f': 'marker', 'bit': rng.randint(0, 127), 'mtype': rng.choice([4, 4, 2, 3, 3, 5])})
@@ -148,7 +149,7 @@ def generate(rng, tier: str, index: int) -> dict:
             ln = {1: rng.randint(19, 28), 2: rng.randint(19, 22), 3: rng.randint(19, 20), 4: rng.choice([20, 21, 23, 100])}[t]
             msgs.append({'k': 'bad', 'f': 'type-len', 'type': t, 'len': ln})
         else:
-            msgs.append({'k': 'bad', 'f': 'unknown-type', 'type': rng.choice([0, 7, 8, 100, 255]), 'n': rng.choice([0, 0, 4, 40])})
+            msgs.append({'k': 'bad', 'f': 'unknown-type', 'type': rng.choice([0, 7, 8, 100, 255]), 'n': rng.choice([0, 0, 4, 40] + ([4097 - 19, 65535 - 19] if ext else []))})
         # canaries: must never be interpreted
         for _ in range(rng.randint(1, 3)):
             msgs.append({'k': 'upd', 'n': rng.randint(30, 90)})
